@@ -277,11 +277,80 @@ def check(ctx, report):
                 off = cl.args[1] if len(cl.args) > 1 else None
                 if not (isinstance(off, ast.Name) and assigned_in(loop, off.id)):
                     report.add('C19.R3', sa.construct + '@rescan[%s]' % cl.func.attr, 'scan inside the item loop starts at %s, which the loop does not advance' % (ast.unparse(off) if off is not None else '?'))
-        scan_origin(report, scan)
+        if not scanner_work(ctx, report, pt, scan):
+            scan_origin(report, scan)
     report.floor('C19.R1', 300, 'classes in the containment graph')
     stateless_parsing(ctx, report)
     linear_scans_in_loops(ctx, report)
     report.floor('C19.R4', 60, 'loop/item obligations')
+
+
+def scanner_work(ctx, report, pt, scan):
+    """ParserText._parse_string_until_separator evaluated (sa.miniexec, with the helper methods it calls) on
+    ``<prefix> item <separator> <tail>`` with two separators of which one does not occur, the item starting at the offset
+    handed in: the item found and the number of evaluation steps must not depend on the length of the prefix (bytes already
+    consumed) nor on the length of the tail (bytes of later items) - _parse_string_array calls the scanner once per item, so
+    work that grows with either makes the array quadratic.  One call of a bytes method (find, index) is one step, as it
+    is one interpreter-level step.  Returns False when the scanner left the evaluable subset (the syntactic rule decides)."""
+    from .. import miniexec
+    from ..miniexec import Evaluator, Obj, Raised, Unsupported, class_call_hook
+    seen = {}
+
+    def extra(n, ev):
+        d = ast.unparse(n.func)
+        if d == 'self._apply_item_class':
+            args = [ev.ev(a) for a in n.args]
+            seen['range'] = (args[1], args[2])
+            return ('item', args[1], args[2])
+        if d == 'type':
+            return 'type'
+        return NotImplemented
+    hook = class_call_hook(pt, extra, ctx.model)
+    params = [a.arg for a in scan.node.args.args if a.arg != 'self']
+    item = b'a:example.com'
+
+    def run(prefix, tail, seps, may_end):
+        data = b'p' * prefix + item + tail
+        me = Obj(_parsable=data, _encoding='ascii')
+        me._repo_class = pt
+        env = dict(zip(params, ['v', prefix, list(seps), str, None, may_end, '']))
+        env['self'] = me
+        seen.clear()
+        miniexec.COUNTER[0] = 0
+        Evaluator(env, hook, None).function(scan.node)
+        return seen.get('range'), miniexec.COUNTER[0]
+    sizes = (16, 256) if not ctx.thorough else (16, 256, 2048)
+    n = 0
+    try:
+        base_rng, base_steps = run(0, b' ' + b't' * sizes[0], (' ', '/'), False)
+        for seps in ((' ', '/'), ('/', ' '), (' ',)):
+            for may_end in (False, True):
+                ref = None
+                for prefix in (0,) + sizes:
+                    for tail_len in sizes:
+                        n += 1
+                        rng, steps = run(prefix, b' ' + b't' * tail_len, seps, may_end)
+                        if rng != (prefix, prefix + len(item)):
+                            report.add('C19.R3', scan.construct + '@origin', 'with %d bytes already consumed the item found is %r, expected %r: the scan does '
+                                       'not start at the item offset' % (prefix, rng, (prefix, prefix + len(item))))
+                            return True
+                        if ref is None:
+                            ref = steps
+                        elif steps != ref:
+                            what = 'bytes already consumed' if tail_len == sizes[0] else 'bytes after the separator'
+                            report.add('C19.R3', scan.construct + '@work', 'finding a %d byte item takes %d evaluation steps with %d bytes before / %d after '
+                                       'it and %d with %d / %d (separators %r): the work of one scan grows with the %s, an array of items is scanned '
+                                       'in quadratic time' % (len(item), ref, 0, sizes[0], steps, prefix, tail_len, list(seps), what))
+                            return True
+    except Unsupported as e:
+        report.undecided.append('C19.R3: the separator scanner left the subset the work tabulation understands (%s); decided on its syntax' % e)
+        return False
+    except Raised as e:
+        report.add('C19.R3', scan.construct + '@work', 'the scanner raises %s on an item followed by a separator' % e.what)
+        return True
+    report.count('C19.R3', n)
+    report.sample({'rule': 'C19.R3', 'scanner_runs': n, 'steps_per_scan': base_steps, 'sizes': list(sizes)})
+    return True
 
 
 def scan_origin(report, scan):
